@@ -324,13 +324,32 @@ theorem specWriteC_ok {σ : Schema} {s s' : St} {id : Bytes} {e : EntA} (c : Chi
   have hlk : s'.as.lookup id = some e := by rw [has, Map.lookup_insert]; simp only [if_true]
   simp only [specCheckChild_none c ic om og hM' hlk]
 
+/-- the protected entity is outside what a successful delete of `id` removes -/
+theorem not_protectedIn_of_ok {σ : Schema} {s s' : St} {id : Bytes} (hI : Inv σ s)
+    (h : deleteA σ (fuelOf s) [] s id = .ok s') : σ.protectedIn (closure s.as [id]) = false := by
+  unfold Schema.protectedIn
+  cases hv : σ.protect with
+  | none => rfl
+  | some v =>
+    simp only [decide_eq_false_iff_not]
+    intro hm
+    obtain ⟨_, _, hiff⟩ := deleteA_exact σ s s' id hI h
+    obtain ⟨_, _, _, _, _, hne⟩ := deleteA_succ_ok (n := s.as.length) h
+    rw [mem_closure] at hm
+    rcases hm with hm | ⟨x, hx, hr⟩
+    · simp only [List.mem_singleton] at hm; subst hm; exact hne hv
+    · simp only [List.mem_singleton] at hx; subst hx
+      obtain ⟨e, he⟩ := hr.exists_entry
+      have := deleteA_keeps_protected σ hv _ _ _ _ _ h he
+      rw [(hiff v).2 (Or.inr (Or.inr hr))] at this; cases this
+
 theorem spec_agrees_deleteA {σ : Schema} {s s' : St} {id : Bytes} (hI : Inv σ s)
-    (h : apply σ s (.deleteA id) = .ok s') :
-    ∃ ss', specApply σ (absSt s) (.deleteA id) = .ok ss' ∧ TEq ss'.as s'.as ∧ TEq ss'.bs s'.bs := by
+    (h : deleteA σ (fuelOf s) [] s id = .ok s') :
+    ∃ ss', specDeleteA σ (absSt s) id = .ok ss' ∧ TEq ss'.as s'.as ∧ TEq ss'.bs s'.bs := by
   obtain ⟨hbs, hsub, hiff⟩ := deleteA_exact σ s s' id hI h
   have hc : s.as.contains id = true := (deleteA_succ_ok (n := s.as.length) h).1
   refine ⟨{ absSt s with as := removeAll s.as (closure s.as [id]) }, ?_, ?_, fun k => by simp [absSt, hbs]⟩
-  · simp only [specApply, absSt, hc, if_true]
+  · simp only [specDeleteA, absSt, hc, if_true, not_protectedIn_of_ok hI h, Bool.false_eq_true, if_false]
   · intro k
     simp only [lookup_removeAll]
     have hmc : k ∈ closure s.as [id] ↔ (k = id ∨ Reach s.as id k) := by
@@ -347,6 +366,154 @@ theorem spec_agrees_deleteA {σ : Schema} {s s' : St} {id : Bytes} (hI : Inv σ 
           · rw [hs] at h1; cases h1
           · exact absurd h1 hk
         | some e' => have := hsub k e' hs'; rw [hs] at this; exact this
+
+theorem spec_agrees_deleteB {σ : Schema} {s s' : St} {b : Bytes} (hF : FullInv σ s)
+    (h : deleteB σ s b = .ok s') :
+    ∃ ss', specDeleteBTop σ (absSt s) b = .ok ss' ∧ TEq ss'.as s'.as ∧ TEq ss'.bs s'.bs := by
+  have hI : Inv σ s := hF.1
+  have hF' : FullInv σ s' := apply_full (.deleteB b) hF h
+  obtain ⟨hbs, hsub, hiff⟩ := deleteB_exact σ s s' b hI h
+  obtain ⟨hb, _⟩ := deleteB_succ_ok hI h
+  have hbne : b ≠ [] := by
+    intro hb0; subst hb0
+    obtain ⟨v, hv⟩ := (Map.contains_iff _ _).1 hb
+    rw [hI.nonEmptyB] at hv; cases hv
+  have hstep : step σ s (.deleteB b) = (s', none) := by simp only [step, apply, h]
+  -- no dep referrer unless the schema cascades
+  have hnodep : σ.depCascade = false → specReferrers s.as (·.dep) b = [] := by
+    intro hc
+    rw [specReferrers_nil_iff]
+    intro k e he hf
+    have hord : ¬ (σ.depFirst = true ∧ σ.depCascade = true) := by rw [hc]; simp
+    have := deleteB_refuses σ s b hI hb (Or.inr ⟨hc, k, e, he, hf⟩) hord
+    rw [hstep] at this; cases this
+  -- no owner referrer survives; none at all when the restrict check runs first
+  have hnoown' : specReferrers s'.as (·.owner) b = [] := by
+    rw [specReferrers_nil_iff]
+    intro k e he hf
+    have hv : evalVal e.owner = b := by simp [evalVal, hf]
+    exact (deleteB_no_orphans σ s s' b hI h k e he).1 (hv ▸ hbne) hv
+  have hnoown : σ.depFirst = false → specReferrers s.as (·.owner) b = [] := by
+    intro hdf
+    rw [specReferrers_nil_iff]
+    intro k e he hf
+    have hord : ¬ (σ.depFirst = true ∧ σ.depCascade = true) := by rw [hdf]; simp
+    have hv : evalVal e.owner = b := by simp [evalVal, hf]
+    have := deleteB_refuses σ s b hI hb (Or.inl ⟨k, e, he, hv, hbne⟩) hord
+    rw [hstep] at this; cases this
+  -- the table after the dep step of the spec
+  let T1 : Map EntA := if σ.depCascade then removeAll s.as (closure s.as (specReferrers s.as (·.dep) b)) else s.as
+  have hT1 : TEq T1 s'.as := by
+    intro k
+    have hremoved : RemovedVia (·.dep) s.as b k ↔ k ∈ closure s.as (specReferrers s.as (·.dep) b) := by
+      rw [mem_closure]
+      constructor
+      · rintro ⟨x, ex, hx, hfx, hk | hk⟩
+        · exact Or.inl (hk ▸ (mem_specReferrers _ _ _ _).2 ⟨ex, hx, hfx⟩)
+        · exact Or.inr ⟨x, (mem_specReferrers _ _ _ _).2 ⟨ex, hx, hfx⟩, hk⟩
+      · rintro (hk | ⟨x, hx, hk⟩)
+        · obtain ⟨ex, hx', hfx⟩ := (mem_specReferrers _ _ _ _).1 hk
+          exact ⟨k, ex, hx', hfx, Or.inl rfl⟩
+        · obtain ⟨ex, hx', hfx⟩ := (mem_specReferrers _ _ _ _).1 hx
+          exact ⟨x, ex, hx', hfx, Or.inr hk⟩
+    have hkeep : ¬ RemovedVia (·.dep) s.as b k → s.as.lookup k = s'.as.lookup k := by
+      intro hnr
+      cases hs : s.as.lookup k with
+      | none => exact ((hiff k).2 (Or.inl hs)).symm
+      | some e =>
+        cases hs' : s'.as.lookup k with
+        | none =>
+          rcases (hiff k).1 hs' with h1 | h1
+          · rw [hs] at h1; cases h1
+          · exact absurd h1 hnr
+        | some e' => have := hsub k e' hs'; rw [hs] at this; exact this
+    cases hcas : σ.depCascade
+    case true =>
+      simp only [T1, hcas, if_true, lookup_removeAll]
+      by_cases hk : k ∈ closure s.as (specReferrers s.as (·.dep) b)
+      · rw [if_pos hk]; exact ((hiff k).2 (Or.inr (hremoved.2 hk))).symm
+      · rw [if_neg hk]; exact hkeep (fun h => hk (hremoved.1 h))
+    case false =>
+      simp only [T1, hcas, Bool.false_eq_true, if_false]
+      refine hkeep ?_
+      rintro ⟨x, ex, hx, hfx, _⟩
+      exact ((specReferrers_nil_iff _ _ _).1 (hnodep hcas)) x ex hx hfx
+  have hownT1 : specReferrers T1 (·.owner) b = [] := by
+    rw [specReferrers_nil_iff]
+    intro k e he
+    rw [hT1 k] at he
+    exact (specReferrers_nil_iff _ _ _).1 hnoown' k e he
+  -- the protected entity is outside what the cascade removed
+  have hnotprot : σ.protectedIn (closure s.as (specReferrers s.as (·.dep) b)) = false := by
+    unfold Schema.protectedIn
+    cases hv : σ.protect with
+    | none => rfl
+    | some v =>
+      simp only [decide_eq_false_iff_not]
+      intro hm
+      rw [mem_closure] at hm
+      have hrem : RemovedVia (·.dep) s.as b v ∧ ∃ e, s.as.lookup v = some e := by
+        rcases hm with hk | ⟨x, hx, hk⟩
+        · obtain ⟨ex, hx', hfx⟩ := (mem_specReferrers _ _ _ _).1 hk
+          exact ⟨⟨v, ex, hx', hfx, Or.inl rfl⟩, ex, hx'⟩
+        · obtain ⟨ex, hx', hfx⟩ := (mem_specReferrers _ _ _ _).1 hx
+          exact ⟨⟨x, ex, hx', hfx, Or.inr hk⟩, hk.exists_entry⟩
+      obtain ⟨hr, e, he⟩ := hrem
+      have := deleteB_keeps_protected hv hI h he
+      rw [(hiff v).2 (Or.inr hr)] at this; cases this
+  have hdepstep : ∀ ss : SSt, ss.as = s.as → specDeleteB σ b ss .depCascade = .ok { ss with as := T1 } := by
+    intro ss hss
+    simp only [specDeleteB, hss]
+    cases hcas : σ.depCascade
+    case true => simp only [T1, hcas, if_true, hnotprot, Bool.false_eq_true, if_false]
+    case false =>
+      simp only [T1, hcas, Bool.false_eq_true, if_false, hnodep hcas, ne_eq, not_true_eq_false]
+      cases ss; simp_all
+  have hownstep : ∀ ss : SSt, specReferrers ss.as (·.owner) b = [] → specDeleteB σ b ss .thingsRestrict = .ok ss := by
+    intro ss hss
+    simp only [specDeleteB, hss, ne_eq, not_true_eq_false, if_false]
+  have okb : ∀ (a : SSt) (f : SSt → SRes), (Except.ok a >>= f) = f a := fun _ _ => rfl
+  -- after the delete `b` is gone, so (targets exist) nothing refers to it through a child-declared fk
+  have hbgone : s'.bs.contains b = false := by
+    cases hc : s'.bs.contains b with
+    | false => rfl
+    | true =>
+      obtain ⟨v, hv⟩ := (Map.contains_iff _ _).1 hc
+      rw [hbs] at hv; simp at hv
+  have hnochild : (specChildRestrict σ T1 b .c1 || specChildRestrict σ T1 b .c2) = false := by
+    have key : ∀ c, specChildRestrict σ T1 b c = false := by
+      intro c
+      have h1 : specReferrers T1 (mentorOf σ c) b = [] := by
+        rw [specReferrers_nil_iff]
+        intro k e he hf
+        rw [hT1 k] at he
+        have := hF'.2.menT c k e he (by simp [evalVal, hf, hbne])
+        simp only [evalVal, hf, Option.getD_some] at this
+        rw [hbgone] at this; cases this
+      have h2 : specReferrers T1 (guardOf σ c) b = [] := by
+        rw [specReferrers_nil_iff]
+        intro k e he hf
+        rw [hT1 k] at he
+        have := hF'.2.guardT c k e he (by simp [evalVal, hf, hbne])
+        simp only [evalVal, hf, Option.getD_some] at this
+        rw [hbgone] at this; cases this
+      simp [specChildRestrict, h1, h2]
+    simp [key]
+  refine ⟨{ as := T1, bs := s.bs.erase b }, ?_, hT1, fun k => by simp [hbs]⟩
+  unfold specDeleteBTop
+  have hcb : (absSt s).bs.contains b = true := hb
+  rw [if_pos hcb]
+  unfold orderB
+  cases hdf : σ.depFirst
+  case true =>
+    simp only [if_true, List.foldlM_cons, List.foldlM_nil]
+    rw [hdepstep (absSt s) rfl, okb, hownstep _ hownT1, okb]
+    simp only [pure, Except.pure, bind, Except.bind, hnochild, Bool.false_eq_true, if_false, absSt]
+  case false =>
+    simp only [Bool.false_eq_true, if_false, List.foldlM_cons, List.foldlM_nil]
+    rw [hownstep (absSt s) (hnoown hdf), okb, hdepstep (absSt s) rfl, okb]
+    simp only [pure, Except.pure, bind, Except.bind, hnochild, Bool.false_eq_true, if_false, absSt]
+
 
 /-- **refinement on success**: from a state satisfying the invariant, whenever the model's operation
     succeeds the spec's operation succeeds too and yields the same entity tables (same `lookup`s) -/
@@ -420,129 +587,10 @@ theorem spec_agrees_on_success {σ : Schema} {s s' : St} (op : Op) (hF : FullInv
     rw [this]
     simp only [hx]
     exact specWriteC_ok c false _ _ _ hI' hF'.2 has hbs
-  | deleteB b =>
-    obtain ⟨hbs, hsub, hiff⟩ := deleteB_exact σ s s' b hI h
-    obtain ⟨hb, _⟩ := deleteB_succ_ok hI h
-    have hbne : b ≠ [] := by
-      intro hb0; subst hb0
-      obtain ⟨v, hv⟩ := (Map.contains_iff _ _).1 hb
-      rw [hI.nonEmptyB] at hv; cases hv
-    have hstep : step σ s (.deleteB b) = (s', none) := by simp only [step, h]
-    -- no dep referrer unless the schema cascades
-    have hnodep : σ.depCascade = false → specReferrers s.as (·.dep) b = [] := by
-      intro hc
-      rw [specReferrers_nil_iff]
-      intro k e he hf
-      have hord : ¬ (σ.depFirst = true ∧ σ.depCascade = true) := by rw [hc]; simp
-      have := deleteB_refuses σ s b hI hb (Or.inr ⟨hc, k, e, he, hf⟩) hord
-      rw [hstep] at this; cases this
-    -- no owner referrer survives; none at all when the restrict check runs first
-    have hnoown' : specReferrers s'.as (·.owner) b = [] := by
-      rw [specReferrers_nil_iff]
-      intro k e he hf
-      have hv : evalVal e.owner = b := by simp [evalVal, hf]
-      exact (deleteB_no_orphans σ s s' b hI h k e he).1 (hv ▸ hbne) hv
-    have hnoown : σ.depFirst = false → specReferrers s.as (·.owner) b = [] := by
-      intro hdf
-      rw [specReferrers_nil_iff]
-      intro k e he hf
-      have hord : ¬ (σ.depFirst = true ∧ σ.depCascade = true) := by rw [hdf]; simp
-      have hv : evalVal e.owner = b := by simp [evalVal, hf]
-      have := deleteB_refuses σ s b hI hb (Or.inl ⟨k, e, he, hv, hbne⟩) hord
-      rw [hstep] at this; cases this
-    -- the table after the dep step of the spec
-    let T1 : Map EntA := if σ.depCascade then removeAll s.as (closure s.as (specReferrers s.as (·.dep) b)) else s.as
-    have hT1 : TEq T1 s'.as := by
-      intro k
-      have hremoved : RemovedVia (·.dep) s.as b k ↔ k ∈ closure s.as (specReferrers s.as (·.dep) b) := by
-        rw [mem_closure]
-        constructor
-        · rintro ⟨x, ex, hx, hfx, hk | hk⟩
-          · exact Or.inl (hk ▸ (mem_specReferrers _ _ _ _).2 ⟨ex, hx, hfx⟩)
-          · exact Or.inr ⟨x, (mem_specReferrers _ _ _ _).2 ⟨ex, hx, hfx⟩, hk⟩
-        · rintro (hk | ⟨x, hx, hk⟩)
-          · obtain ⟨ex, hx', hfx⟩ := (mem_specReferrers _ _ _ _).1 hk
-            exact ⟨k, ex, hx', hfx, Or.inl rfl⟩
-          · obtain ⟨ex, hx', hfx⟩ := (mem_specReferrers _ _ _ _).1 hx
-            exact ⟨x, ex, hx', hfx, Or.inr hk⟩
-      have hkeep : ¬ RemovedVia (·.dep) s.as b k → s.as.lookup k = s'.as.lookup k := by
-        intro hnr
-        cases hs : s.as.lookup k with
-        | none => exact ((hiff k).2 (Or.inl hs)).symm
-        | some e =>
-          cases hs' : s'.as.lookup k with
-          | none =>
-            rcases (hiff k).1 hs' with h1 | h1
-            · rw [hs] at h1; cases h1
-            · exact absurd h1 hnr
-          | some e' => have := hsub k e' hs'; rw [hs] at this; exact this
-      cases hcas : σ.depCascade
-      case true =>
-        simp only [T1, hcas, if_true, lookup_removeAll]
-        by_cases hk : k ∈ closure s.as (specReferrers s.as (·.dep) b)
-        · rw [if_pos hk]; exact ((hiff k).2 (Or.inr (hremoved.2 hk))).symm
-        · rw [if_neg hk]; exact hkeep (fun h => hk (hremoved.1 h))
-      case false =>
-        simp only [T1, hcas, Bool.false_eq_true, if_false]
-        refine hkeep ?_
-        rintro ⟨x, ex, hx, hfx, _⟩
-        exact ((specReferrers_nil_iff _ _ _).1 (hnodep hcas)) x ex hx hfx
-    have hownT1 : specReferrers T1 (·.owner) b = [] := by
-      rw [specReferrers_nil_iff]
-      intro k e he
-      rw [hT1 k] at he
-      exact (specReferrers_nil_iff _ _ _).1 hnoown' k e he
-    have hdepstep : ∀ ss : SSt, ss.as = s.as → specDeleteB σ b ss .depCascade = .ok { ss with as := T1 } := by
-      intro ss hss
-      simp only [specDeleteB, hss]
-      cases hcas : σ.depCascade
-      case true => simp only [T1, hcas, if_true]
-      case false =>
-        simp only [T1, hcas, Bool.false_eq_true, if_false, hnodep hcas, ne_eq, not_true_eq_false]
-        cases ss; simp_all
-    have hownstep : ∀ ss : SSt, specReferrers ss.as (·.owner) b = [] → specDeleteB σ b ss .thingsRestrict = .ok ss := by
-      intro ss hss
-      simp only [specDeleteB, hss, ne_eq, not_true_eq_false, if_false]
-    have okb : ∀ (a : SSt) (f : SSt → SRes), (Except.ok a >>= f) = f a := fun _ _ => rfl
-    -- after the delete `b` is gone, so (targets exist) nothing refers to it through a child-declared fk
-    have hbgone : s'.bs.contains b = false := by
-      cases hc : s'.bs.contains b with
-      | false => rfl
-      | true =>
-        obtain ⟨v, hv⟩ := (Map.contains_iff _ _).1 hc
-        rw [hbs] at hv; simp at hv
-    have hnochild : (specChildRestrict σ T1 b .c1 || specChildRestrict σ T1 b .c2) = false := by
-      have key : ∀ c, specChildRestrict σ T1 b c = false := by
-        intro c
-        have h1 : specReferrers T1 (mentorOf σ c) b = [] := by
-          rw [specReferrers_nil_iff]
-          intro k e he hf
-          rw [hT1 k] at he
-          have := hF'.2.menT c k e he (by simp [evalVal, hf, hbne])
-          simp only [evalVal, hf, Option.getD_some] at this
-          rw [hbgone] at this; cases this
-        have h2 : specReferrers T1 (guardOf σ c) b = [] := by
-          rw [specReferrers_nil_iff]
-          intro k e he hf
-          rw [hT1 k] at he
-          have := hF'.2.guardT c k e he (by simp [evalVal, hf, hbne])
-          simp only [evalVal, hf, Option.getD_some] at this
-          rw [hbgone] at this; cases this
-        simp [specChildRestrict, h1, h2]
-      simp [key]
-    refine ⟨{ as := T1, bs := s.bs.erase b }, ?_, hT1, fun k => by simp [hbs]⟩
-    simp only [specApply]
-    have hcb : (absSt s).bs.contains b = true := hb
-    rw [if_pos hcb]
-    unfold orderB
-    cases hdf : σ.depFirst
-    case true =>
-      simp only [if_true, List.foldlM_cons, List.foldlM_nil]
-      rw [hdepstep (absSt s) rfl, okb, hownstep _ hownT1, okb]
-      simp only [pure, Except.pure, bind, Except.bind, hnochild, Bool.false_eq_true, if_false, absSt]
-    case false =>
-      simp only [Bool.false_eq_true, if_false, List.foldlM_cons, List.foldlM_nil]
-      rw [hownstep (absSt s) (hnoown hdf), okb, hdepstep (absSt s) rfl, okb]
-      simp only [pure, Except.pure, bind, Except.bind, hnochild, Bool.false_eq_true, if_false, absSt]
+  | deleteB b => exact spec_agrees_deleteB hF h
+  | deleteAV id v =>
+    exact spec_agrees_deleteA (σ := σ.withProtect v) (hI.of_schema rfl) h
+  | deleteBV id v =>
+    exact spec_agrees_deleteB (σ := σ.withProtect v) ⟨hI.of_schema rfl, (MInv.withProtect v).2 hF.2⟩ h
 
 end StorageModel.C04
